@@ -241,7 +241,7 @@ Lemma kept_sum_generic (isalpha : N -> bool) (bf : list (TextFile.str * Q)) (tot
   (Qsum (map fst (map (fun l : TextFile.str * Q => ((snd l / tot)%Q, Loader.insert_caps (toks isalpha (fst l))))
                       (filter (nonM isalpha) bf))) == 1)%Q.
 Proof.
-  intros Hn Hp Hs. rewrite map_map. cbn [fst]. rewrite (filter_ext_in _ _ _ Hn).
+  intros Hn Hp Hs. rewrite map_map. cbn [fst]. unfold Expand.str, TextFile.str in *. rewrite (filter_ext_in _ _ _ Hn).
   etransitivity; [exact (Qsum_map_div snd tot _)|]. rewrite Hs. field.
   intros H. rewrite H in Hp. exact (Qlt_irrefl _ Hp).
 Qed.
@@ -459,7 +459,8 @@ Proof.
 Qed.
 
 Lemma bprobs_of_bases {X} (g : X -> option (list nat)) : forall (bs : list (Q * X)) (bl : list Qbstruct),
-  Forall2 (fun b x => bprob x = fst b /\ g (snd b) = Some (brepl x)) bs bl -> map (@bprob QProb) bl = map fst bs.
+  Forall2 (fun (b : Q * X) (x : Qbstruct) => @bprob QProb x = fst b /\ g (snd b) = Some (brepl x)) bs bl ->
+  map (@bprob QProb) bl = map fst bs.
 Proof. induction 1 as [|b x bs bl (Hp & _) _ IH]; [reflexivity|]. cbn [map]. now rewrite Hp, IH. Qed.
 
 (* ------------------------------------------------------------------ *)
